@@ -16,3 +16,5 @@ func isUTF8(b []byte) bool { return utf8.Valid(b) }
 func panicFindings(p *mon.Panic) []string { return nil }
 
 func applyFindings(sc *SeqCase, o V5Opts, res ApplyResult, want ref.Result) []string { return nil }
+
+func robustFindings(pkg, api string, pn *mon.Panic, args map[string]any) []string { return nil }
